@@ -675,6 +675,18 @@ func solveAdaptive(file string, smt string, tmo int, mode string) SolveResult {
 	if tmo < short {
 		short = tmo
 	}
+	if strings.Contains(smt, "FloatingPoint") || strings.Contains(smt, "str.in_re") {
+		// floating point and regular-language goals: cvc5 is far quicker here than z3's bit-blasting / sequence solver
+		for _, sc := range solverCmds {
+			if sc.name != "cvc5" {
+				continue
+			}
+			st, _, el := runOne(sc.name, sc.argv(file, tmo), tmo)
+			if st == "unsat" || st == "sat" {
+				return SolveResult{Status: st, Solver: sc.name, TimeS: el, Tried: []string{fmt.Sprintf("%s:%s:%.2fs", sc.name, st, el)}}
+			}
+		}
+	}
 	first := solverCmds[0]
 	st, out, el := runOne(first.name, first.argv(file, short), short)
 	res := SolveResult{Status: st, Solver: first.name, TimeS: el, Tried: []string{fmt.Sprintf("%s:%s:%.2fs", first.name, st, el)}}
